@@ -404,7 +404,163 @@ def policy(repo, tier):
     return {"obligations": obls, "functions": [f for f in fns if f]}
 
 
-EXTRA = [policy]
+# ------------------------------------------------- zip-bomb error propagation --
+ZBERR = "ExtractionZipBombError"
+
+
+def propagation(repo, tier):
+    """"...it is rejected with the zip-bomb error": at every call site of a function that can raise ExtractionZipBombError
+    (validate_zipfile and, transitively, every package function a bomb error propagates out of: open_zipfile, validate_zip_bytesio,
+    the ZipContext family constructors, is_odf_encrypted, the read_* extractors) the exception leaves the calling function
+    unchanged: every enclosing `try` whose handler list catches it (ExtractionZipBombError, a base class, or a bare except)
+    re-raises it as it is.  Exceptional postcondition per call site, decided by AST dominance over the handler lists
+    (class hierarchy from the real exception module); callee resolution is by defining / imported module."""
+    import ast as _ast
+    from pyvc import loader
+    from pyvc.exctypes import Universe
+    from pyvc.flow import dotted, ground_obligation
+    uni = Universe(repo)
+    files = [f for f in loader.all_package_files(repo) if "/tests/" not in f]
+    mods = {f: loader.module(f, repo) for f in files}
+    by_modpath = {f[:-3].replace("/", "."): f for f in files}
+
+    def resolve(m, f, name):
+        """(file, name) of the definition a bare / imported name refers to in module m."""
+        if name in m.functions or name in m.classes:
+            return (f, name)
+        origin = m.imports.get(name)
+        if origin:
+            modpath, _, nm = origin.rpartition(".")
+            if modpath in by_modpath:
+                return (by_modpath[modpath], nm)
+        return None
+
+    bomb = {(ZB, "validate_zipfile")}
+
+    def class_is_bomb(f, cname, seen=()):
+        m = mods[f]
+        c = m.classes.get(cname)
+        if c is None or (f, cname) in seen:
+            return False
+        if (f, cname + ".__init__") in bomb:
+            return True
+        if f"{cname}.__init__" in m.functions:
+            return False
+        for b in c.bases:
+            r = resolve(m, f, _ast.unparse(b).split(".")[-1])
+            if r and class_is_bomb(r[0], r[1], seen + ((f, cname),)):
+                return True
+        return False
+
+    def catches(h):
+        if h.type is None:
+            return True
+        for t in (h.type.elts if isinstance(h.type, _ast.Tuple) else [h.type]):
+            n = _ast.unparse(t).split(".")[-1]
+            if n in ("BaseException", "Exception") or (uni.known(n) and uni.is_subclass(ZBERR, n)):
+                return True
+        return False
+
+    def reraises(h):
+        raises = [n for b in h.body for n in _ast.walk(b) if isinstance(n, _ast.Raise)]
+        if not raises or not isinstance(h.body[-1], _ast.Raise):
+            return False
+        for r in raises:
+            if r.exc is None:
+                continue
+            if h.name and isinstance(r.exc, _ast.Name) and r.exc.id == h.name and r.cause is None:
+                continue
+            return False
+        return True
+
+    def verdict(fn, call):
+        path = []
+
+        def find(node, stack):
+            for ch in _ast.iter_child_nodes(node):
+                if ch is call:
+                    path.extend(stack + [node])
+                    return True
+                if isinstance(ch, (_ast.FunctionDef, _ast.AsyncFunctionDef, _ast.Lambda)):
+                    continue
+                if find(ch, stack + [node]):
+                    return True
+            return False
+        find(fn, [])
+        tries = []
+        for i, n in enumerate(path):
+            if isinstance(n, _ast.Try):
+                nxt = path[i + 1] if i + 1 < len(path) else call
+                if any(nxt is b or any(nxt is x for x in _ast.walk(b)) for b in n.body):
+                    tries.append(n)
+                elif any(nxt is b or any(nxt is x for x in _ast.walk(b)) for b in n.finalbody) or True:
+                    pass
+        for t in reversed(tries):
+            for h in t.handlers:
+                if catches(h):
+                    if reraises(h):
+                        break
+                    return f"line {h.lineno}: `except {_ast.unparse(h.type) if h.type else ''}` converts or swallows the zip-bomb error raised at line {call.lineno}"
+            if any(isinstance(x, _ast.Return) for b in t.finalbody for x in _ast.walk(b)):
+                return f"line {t.lineno}: `finally` returns, which discards the zip-bomb error raised at line {call.lineno}"
+        return None
+
+    results = {}
+    changed = True
+    while changed:
+        changed = False
+        for f, m in mods.items():
+            for q, fn in m.functions.items():
+                own_calls = []
+                stack = list(_ast.iter_child_nodes(fn))
+                while stack:
+                    n = stack.pop()
+                    if isinstance(n, (_ast.FunctionDef, _ast.AsyncFunctionDef, _ast.Lambda)):
+                        continue
+                    if isinstance(n, _ast.Call):
+                        own_calls.append(n)
+                    stack.extend(_ast.iter_child_nodes(n))
+                for call in own_calls:
+                    d = dotted(call.func) or ""
+                    target = None
+                    is_super_init = isinstance(call.func, _ast.Attribute) and call.func.attr == "__init__" and isinstance(call.func.value, _ast.Call) \
+                        and dotted(call.func.value.func) == "super"
+                    if is_super_init and "." in q:
+                        c = m.classes.get(q.split(".")[0])
+                        for b in (c.bases if c is not None else []):
+                            r = resolve(m, f, _ast.unparse(b).split(".")[-1])
+                            if r and class_is_bomb(r[0], r[1]):
+                                target = (r[0], r[1])
+                    elif d and "." not in d:
+                        r = resolve(m, f, d)
+                        if r and (r in bomb or class_is_bomb(r[0], r[1])):
+                            target = r
+                    elif d:
+                        head, _, rest = d.partition(".")
+                        origin = m.imports.get(head)
+                        if origin and "." not in rest and origin in by_modpath and (by_modpath[origin], rest) in bomb:
+                            target = (by_modpath[origin], rest)
+                    if target is None:
+                        continue
+                    v = verdict(fn, call)
+                    results[(f, q, call.lineno, call.col_offset)] = (target, v)
+                    if v is None and (f, q) not in bomb:
+                        bomb.add((f, q))
+                        changed = True
+    obls = []
+    ordinals = {}
+    for (f, q, line, _col), (target, v) in sorted(results.items()):
+        k = ordinals.get((f, q, target[1]), 0)
+        ordinals[(f, q, target[1])] = k + 1
+        obls.append(ground_obligation(f"C11/{f.split('/')[-1]}::{q}/exc-ensures#zip-bomb-error-of-{target[1]}@{k}-propagates-unchanged",
+                                      v is None, v or f"line {line}", f"{f}:{line}", kind="exc-ensures"))
+    readers = sorted(q for (f, q) in bomb if q.startswith("read_"))
+    obls.append(ground_obligation("C11/package/exc-ensures#every-zip-container-extractor-is-reached-by-the-zip-bomb-error",
+                                  len(readers) >= 8 and len(obls) >= 20, f"{len(obls)} call sites; extractors: {readers}", "package", kind="exc-ensures", definite=False))
+    return {"obligations": obls, "functions": []}
+
+
+EXTRA = [policy, propagation]
 
 TRUSTED = ["zipfile.ZipFile.infolist()/ZipInfo fields present the central directory (assumed view)"]
 ASSUMED_MODELS = ["zipfile.ZipFile (constructor, infolist, close, context manager)", "zipfile.ZipInfo.file_size/compress_size/is_dir",
